@@ -1596,7 +1596,11 @@ class Module(ABC):
 
         new_recs = pd.DataFrame(in_view, columns=["rec_index"])
         new_recs["state"] = state
-        self.base.recordings = pd.concat([self.base.recordings, new_recs])
+        # Unique row labels: they are used to match the recordings of a view with those
+        # of the module (`delete_recordings`).
+        self.base.recordings = pd.concat(
+            [self.base.recordings, new_recs], ignore_index=True
+        )
         has_duplicates = self.base.recordings.duplicated()
         self.base.recordings = self.base.recordings.loc[~has_duplicates]
         if verbose:
